@@ -127,9 +127,18 @@ fn gen(seed: u64, family: &str, tier: Tier) -> Case {
         w.algorithm = json!({"type": "yens", "k": r.range(2, 3), "underlying": if r.chance(0.5) { json!({"type": "dijkstra"}) } else { json!({"type": "a*"}) },
             "similarity": {"type": "edge_id_cosine_similarity", "threshold": many_digits(&mut r, 0.5, 0.99)}});
     }
-    let runtime = if family == "ksp" { json!({"type": "query_runtime", "limit": fmt_hms(limit_s.max(1) * 1_000_000_000), "frequency": 100000}) } else { runtime };
+    let runtime = if family == "ksp" && r.chance(0.3) { json!({"type": "query_runtime", "limit": fmt_hms(limit_s.max(1) * 1_000_000_000), "frequency": 100000}) } else { runtime };
     w.termination = match family {
-        "runtime" | "ksp" => runtime,
+        "ksp" => match r.below(5) {
+            0 => iters.clone(),
+            1 => {
+                let mut ms = vec![runtime, iters.clone()];
+                r.shuffle(&mut ms);
+                json!({"type": "combined", "models": ms})
+            }
+            _ => runtime,
+        },
+        "runtime" => runtime,
         "edge" => {
             if r.chance(0.5) {
                 runtime
@@ -314,8 +323,14 @@ enum Predicted {
 
 /// reference model of the limits, fed the very clock values and expansions the search saw
 fn walk(seg: &Segment, lim: &Limits, exact: bool, size_may_fire: bool) -> Result<(Predicted, u64), String> {
-    let ev = &seg.events;
-    let mut pos = 0;
+    walk_from(&seg.events, 0, lim, exact, size_may_fire, &|e: &ProbeEv| e.a).map(|(p, t, _)| (p, t))
+}
+
+/// walks one search starting at `pos0`; `key` names the vertex an expansion call belongs to (the source
+/// of the edge in a forward search, its destination in a reverse search). Also returns the position
+/// after the last event of this search.
+fn walk_from(ev: &[&ProbeEv], pos0: usize, lim: &Limits, exact: bool, size_may_fire: bool, key: &dyn Fn(&ProbeEv) -> u64) -> Result<(Predicted, u64, usize), String> {
+    let mut pos = pos0;
     // the first monotonic read after the instance was built is the search's start time
     while pos < ev.len() && ev[pos].kind != K_MONO {
         if ev[pos].kind == PROBE_EXPAND {
@@ -324,7 +339,7 @@ fn walk(seg: &Segment, lim: &Limits, exact: bool, size_may_fire: bool) -> Result
         pos += 1;
     }
     if pos >= ev.len() {
-        return Ok((Predicted::Unknown, 0));
+        return Ok((Predicted::Unknown, 0, pos));
     }
     let start = ev[pos].clock;
     pos += 1;
@@ -345,7 +360,7 @@ fn walk(seg: &Segment, lim: &Limits, exact: bool, size_may_fire: bool) -> Result
                     // earlier loop turn, which the walk would have noticed (no expansion followed)
                     return Err(format!("loop turn {} is a scheduled runtime check (frequency {}) but the search did not read the clock", i, f));
                 } else {
-                    return Ok((Predicted::Unknown, i));
+                    return Ok((Predicted::Unknown, i, pos));
                 }
             }
         }
@@ -377,24 +392,24 @@ fn walk(seg: &Segment, lim: &Limits, exact: bool, size_may_fire: bool) -> Result
             if more > 0 {
                 return Err(format!("{} limit exhausted at loop turn {} but {} more expansion calls followed", reasons.join("+"), i, more));
             }
-            return Ok((Predicted::Terminated(reasons), i));
+            return Ok((Predicted::Terminated(reasons), i, ev.len()));
         }
         // the expansion of this loop turn (one group of frontier calls for one vertex)
         if pos < ev.len() && ev[pos].kind == PROBE_EXPAND {
-            let v = ev[pos].a;
-            while pos < ev.len() && ev[pos].kind == PROBE_EXPAND && ev[pos].a == v {
+            let v = key(ev[pos]);
+            while pos < ev.len() && ev[pos].kind == PROBE_EXPAND && key(ev[pos]) == v {
                 pos += 1;
             }
             i += 1;
         } else {
             // natural end (destination popped / queue empty) — or, if a size limit is configured, it fired
             if size_may_fire {
-                return Ok((Predicted::Unknown, i));
+                return Ok((Predicted::Unknown, i, pos));
             }
             if !exact {
-                return Ok((Predicted::Unknown, i));
+                return Ok((Predicted::Unknown, i, pos));
             }
-            return Ok((Predicted::Completed, i));
+            return Ok((Predicted::Completed, i, pos));
         }
     }
 }
@@ -485,7 +500,7 @@ fn judge(case: &Case, obs: &Obs) -> (Vec<Violation>, BTreeMap<String, u64>, bool
                 v.push(Violation { class: "route-differs-from-unlimited".into(), detail: format!("query {}: route {} vs unlimited {}", qid, resp["route"]["path"], unlimited["route"]["path"]) });
             }
             bump("completed_under_limit", 1);
-            if let (Some(l), Some(n), true) = (lim.iterations, resp.get("iterations").and_then(|x| x.as_u64()), exact && case.family != "edge" && case.family != "yens") {
+            if let (Some(l), Some(n), true) = (lim.iterations, resp.get("iterations").and_then(|x| x.as_u64()), exact && case.family != "edge" && case.family != "yens" && case.family != "ksp") {
                 if n > l {
                     v.push(Violation { class: "iterations-over-limit".into(), detail: format!("query {} reports {} iterations under an iteration limit of {}", qid, n, l) });
                 }
@@ -497,7 +512,7 @@ fn judge(case: &Case, obs: &Obs) -> (Vec<Violation>, BTreeMap<String, u64>, bool
             }
         }
         // iteration limit: stopped iff the unlimited search needs at least `limit` loop turns that expand
-        if let (Some(l), Some(n), true) = (lim.iterations, n_unl, exact && case.family != "yens") {
+        if let (Some(l), Some(n), true) = (lim.iterations, n_unl, exact && case.family != "yens" && case.family != "ksp") {
             let must_stop = l <= n;
             if must_stop && !terminated {
                 v.push(Violation { class: "iteration-limit-ignored".into(), detail: format!("query {}: the unlimited search expands {} times, the iteration limit is {}, yet the search was not stopped", qid, n, l) });
@@ -560,8 +575,63 @@ fn judge(case: &Case, obs: &Obs) -> (Vec<Violation>, BTreeMap<String, u64>, bool
             continue;
         }
         if case.family == "ksp" {
+            // single-via: a forward search, then a reverse search, each with a budget of its own; both are
+            // walked with the reference model of the limits (the reverse search expands incoming edges: an
+            // expansion call belongs to the destination of its edge)
+            let exact_rev = (0..w.nv()).all(|x| w.edges.iter().any(|e| e.1 == x));
+            if let (Some(seg), true) = (by_qid.get(&qid), exact) {
+                let fwd_key = |e: &ProbeEv| e.a;
+                let edges = &w.edges;
+                let rev_key = |e: &ProbeEv| edges.get(e.b as usize).map_or(u64::MAX, |x| x.1 as u64);
+                let other_error = resp.get("error").is_some() && !terminated;
+                let mut judge_sub = |label: &str, r: Result<(Predicted, u64, usize), String>, last: bool, v: &mut Vec<Violation>| -> Option<usize> {
+                    match r {
+                        Err(d) => {
+                            v.push(Violation { class: "limit-model-mismatch".into(), detail: format!("query {} ({} sub-search of single-via, termination {}): {}", qid, label, case.world.termination, d) });
+                            None
+                        }
+                        Ok((Predicted::Terminated(reasons), turn, _)) => {
+                            bump("ksp_walk_terminated", 1);
+                            if !terminated {
+                                v.push(Violation { class: "ksp-exhausted-but-not-terminated".into(), detail: format!("query {}: the {} sub-search exhausted its {} limit at loop turn {} but the response is not a termination error", qid, label, reasons.join("+"), turn) });
+                            } else {
+                                for r in reasons.iter().filter(|r| !r.ends_with('?')) {
+                                    if !said.contains(r) {
+                                        v.push(Violation { class: "wrong-limit-named".into(), detail: format!("query {}: the {} sub-search was stopped by the {} limit but the error names {:?}", qid, label, r, said) });
+                                    }
+                                }
+                            }
+                            None
+                        }
+                        Ok((Predicted::Completed, _, end)) => {
+                            bump("ksp_walk_completed", 1);
+                            if last && terminated {
+                                v.push(Violation { class: "ksp-terminated-without-exhaustion".into(), detail: format!("query {} was stopped ({}) although neither sub-search exhausted a limit at any scheduled check", qid, err.chars().take(120).collect::<String>()) });
+                            }
+                            Some(end)
+                        }
+                        Ok((Predicted::Unknown, _, _)) => {
+                            bump("ksp_walk_undecided", 1);
+                            None
+                        }
+                    }
+                };
+                if std::env::var_os("SIM_DEBUG_C10").is_some() {
+                    eprintln!("SEG qid={} resp_err={:?} events={:?}", qid, resp.get("error"), seg.events.iter().map(|e| (e.kind, e.a, e.b, e.clock)).collect::<Vec<_>>());
+                }
+                // (a query that is answered by another error - no destination, no path - may not have started
+                // either search: the monotonic reads in its history are progress reporting, not a search)
+                let first = if other_error && !seg.events.iter().any(|e| e.kind == PROBE_EXPAND) { Ok((Predicted::Unknown, 0, 0)) } else { walk_from(&seg.events, 0, &lim, exact, false, &fwd_key) };
+                if let Some(end) = judge_sub("forward", first, false, &mut v) {
+                    if !other_error && exact_rev {
+                        let second = walk_from(&seg.events, end, &lim, exact_rev, false, &rev_key);
+                        judge_sub("reverse", second, true, &mut v);
+                    }
+                }
+            }
             // each sub-search (forward, then reverse) reads its own start time, then checks at loop turn 0
-            if let (Some(seg), Some((limit, _)), true) = (by_qid.get(&qid), lim.runtime, exact) {
+            // (coarse variant for configurations whose only scheduled check is the one at loop turn 0)
+            if let (Some(seg), Some((limit, _)), true) = (by_qid.get(&qid), lim.runtime.filter(|(_, f)| *f >= 100000 && lim.iterations.is_none()), exact) {
                 let mono: Vec<(usize, u64)> = seg.events.iter().enumerate().filter(|(_, e)| e.kind == K_MONO).map(|(i, e)| (i, e.clock)).collect();
                 let mut fired = vec![];
                 let mut k = 0;
